@@ -333,13 +333,28 @@ def _ca_carries_a_clean_key_description(fault):
     return f
 
 
+_FOREIGN_KEYS = {}
+
+
+def att_key_of_foreign_type(s, r):
+    # the attestation certificate holds a key of a type that NONE of the algorithms the property lists denotes (Ed448; a DSA or X25519 key could not even sign / be
+    # certified this way), the statement is genuinely signed with it, and declares any algorithm: there is no scheme under which that signature counts
+    import types
+    from cryptography.hazmat.primitives.asymmetric import ed448
+    if "ed448" not in _FOREIGN_KEYS:
+        _FOREIGN_KEYS["ed448"] = authsim._load_or_make_uncached("ed448_att", ed448.Ed448PrivateKey.generate) if hasattr(authsim, "_load_or_make_uncached") else ed448.Ed448PrivateKey.generate()
+    sk = _FOREIGN_KEYS["ed448"]
+    alg = r.choice([-8, -7, -257, -36, -37, -65535, -53])
+    s.k["att_cred_override"] = types.SimpleNamespace(sk=sk, pk=sk.public_key(), alg=alg, scheme="ED25519", fam="ed", kind="Ed448")
+
+
 FORMAT_FAULTS = {
     "packed-self": {
         "credential-key-coordinates-split-elsewhere": cred_xy_split_elsewhere, "alg-disagrees-with-key": self_alg_mismatch, "signed-by-other-key": self_other_key, "signed-other-authdata": signed_other_ad,
         "signed-other-clientdata": signed_other_cdh, "wrong-scheme": self_wrong_scheme, "sig-missing": stmt_drop("sig"), "alg-missing": stmt_drop("alg"),
     },
     "packed": {
-        "signed-by-other-key": att_other_key, "signed-other-authdata": signed_other_ad, "signed-other-clientdata": signed_other_cdh,
+        "signed-by-other-key": att_other_key, "signed-other-authdata": signed_other_ad, "signed-other-clientdata": signed_other_cdh, "attestation-key-of-a-type-no-algorithm-denotes": att_key_of_foreign_type,
         "wrong-scheme": att_wrong_scheme, "sig-missing": stmt_drop("sig"), "alg-missing": stmt_drop("alg"), "alg-zero": stmt_set("alg", 0),
         "alg-es384-genuinely-signed-with-sha384": alg_es384_really_signed,
     },
